@@ -55,10 +55,12 @@ class Ob:
         self.bounds = {}
         self.queries = []        # deferred queries (dicts)
         self.scenarios = []      # replay scenario templates
+        self.scn_strings = []    # per scenario: the string table (live reference) of the interpreter that built it
         self.strings = {}
 
     def to_dict(self):
         d = dict(self.__dict__)
+        d['scn_strings'] = [{str(k): v for k, v in t.items()} for t in self.scn_strings]
         d['functions'] = sorted(self.functions)
         d['summaries'] = sorted(self.summaries)
         return d
@@ -287,6 +289,7 @@ class Ctx:
         (lazily initialised accounts / allowances)."""
         self.scn_dyn = dynamic
         self.ob.scenarios.append(scenario)
+        self.ob.scn_strings.append(templ.I.strings_rev)
         self.scn = len(self.ob.scenarios) - 1
         self.scn_exprs = dict(templ.exprs)
         self.ob.strings = {str(k): v for k, v in templ.I.strings_rev.items()}
@@ -481,6 +484,9 @@ def _worker(args):
         fn(ctx)
         for I in ctx.interps:
             ctx.absorb(I)
+        # strings interned during the run (after the scenario template was registered) are needed to render models
+        for I in ctx.interps[-1:]:
+            ob.strings.update({str(k): v for k, v in I.strings_rev.items()})
     except Gap as e:
         ob.gaps.append(str(e))
     except Exception as e:   # noqa
@@ -627,6 +633,7 @@ def run_check(prop_id, modname, tier, seed, jobs=None, only=None):
                         ent = {'claim': c['claim'], 'key': c['key'], 'site': c['key'], 'model': cf['model'], 'strings': r['strings']}
                         if q.get('scn') is not None:
                             ent['scenario_t'] = with_extra(r['scenarios'][q['scn']], q.get('scn_extra'))
+                            ent['strings'] = r['scn_strings'][q['scn']]
                         cr.append(ent)
             for c in a['claims']:
                 if c['status'] == 'sat':
@@ -640,7 +647,7 @@ def run_check(prop_id, modname, tier, seed, jobs=None, only=None):
                         wit_sat.append(c['claim'])
                         if q.get('expect') and q.get('scn') is not None and len(r.setdefault('witness_replays', [])) < 3:
                             r['witness_replays'].append({'label': c['claim'], 'expect': q['expect'], 'model': c['model'],
-                                                         'scenario_t': with_extra(r['scenarios'][q['scn']], q.get('scn_extra')), 'strings': r['strings']})
+                                                         'scenario_t': with_extra(r['scenarios'][q['scn']], q.get('scn_extra')), 'strings': r['scn_strings'][q['scn']]})
                         if len(r['witnesses']) < 12:
                             r['witnesses'].append({'label': c['claim'], 'model': c['model']})
                     continue
@@ -648,7 +655,7 @@ def run_check(prop_id, modname, tier, seed, jobs=None, only=None):
                     viol = {'claim': c['claim'], 'site': c['key'], 'key': c['key'], 'model': c['model']}
                     if q.get('scn') is not None:
                         viol['scenario_t'] = with_extra(r['scenarios'][q['scn']], q.get('scn_extra'))
-                        viol['strings'] = r['strings']
+                        viol['strings'] = r['scn_strings'][q['scn']]
                     r['violations'].append(viol)
                 elif c['status'] == 'unknown':
                     r['unknowns'].append({'claim': c['claim'], 'site': c['key']})
